@@ -162,12 +162,81 @@ def scripts_for(tier, rnd):
     return out
 
 
+def stop_during_apply(rnd, n):
+    """rtr_stop() arriving while the socket thread is in the middle of applying a response (harness directive
+    `stopcb k`: the k-th update callback holds the thread until the main thread is inside rtr_stop).  No model run:
+    the outcome must be the one of a stop (C05/C07: session and serial forgotten, this socket's records gone), and the
+    next connection must start with a Reset Query.  -> (cases run, list of findings)"""
+    import rtrsim as R
+    out, ran = [], 0
+    for i in range(n):
+        c = R.Cache(rnd, ver=1)
+        c.mutate(n=rnd.randint(2, 8))
+        s = R.Script(refresh=3600, expire=7200, retry=600, mode=0)
+        s.opens = [True] * 6
+        first = b"".join(c.full())
+        ncb = len(c.data)
+        two_step = rnd.random() < 0.5
+        if two_step:
+            s.data(first)
+            sn0 = c.serial
+            c.mutate(n=rnd.randint(2, 6))
+            q = {"type": R.SERIAL_QUERY, "field": c.session, "sn": sn0}
+            delta = c.answer(q)
+            s.data(R.serial_notify(c.ver, c.session, c.serial) + b"".join(delta))
+            k = ncb + rnd.randint(1, max(1, len(delta) - 2))
+        else:
+            s.data(first)
+            k = rnd.randint(1, max(1, ncb))
+        s.data(b"".join(c.full()))          # the answer to the query of the next connection
+        lines = s.lines()
+        lines.insert(1, "stopcb %d" % k)
+        rc, a = R.run_impl(lines)
+        ran += 1
+        tr = R.Trace(a)
+        if tr.crash:
+            out.append({"key": "stop-during-apply-crash", "what": "abort / sanitizer report", "detail": tr.crash[-1200:], "script": lines})
+            continue
+        if "STOPCB" not in a:
+            continue
+        j = a.index("STOPCB")
+        dumps = [x for x in range(j, len(a)) if a[x].startswith("DUMP stopped")]
+        if not dumps:
+            out.append({"key": "stop-during-apply-hang", "what": "rtr_stop did not return", "tail": a[-6:], "script": lines})
+            continue
+        d = a[dumps[0]]
+        recs = []
+        for x in a[dumps[0] + 1:]:
+            if x == "ENDDUMP":
+                break
+            recs.append(x)
+        mine = [x for x in recs if x.rstrip().endswith(":1")]
+        bad = []
+        if " reqsess=1 " not in d or " serial=0 " not in d or " last_update=0 " not in d:
+            bad.append("bookkeeping after rtr_stop: " + d)
+        if mine:
+            bad.append("%d records of the stopped socket are still in the tables" % len(mine))
+        sends = [x for x in a[dumps[0]:] if x.startswith("SEND ")]
+        if sends and len(sends[0].split()[1]) >= 4 and sends[0].split()[1][2:4] != "02":
+            bad.append("first query of the next connection is not a Reset Query: " + sends[0][:60])
+        if bad:
+            out.append({"key": "stop-during-apply", "what": bad, "stopcb": k, "script": lines})
+    return ran, out
+
+
 def run(chk):
     rnd = vlib.rng(5)
     C03_gen.warm_up()
     scripts = scripts_for(chk.tier, rnd)
     C03_gen.run_check(chk, "C05", THEOREMS, scripts,
                       "session / expiry / wrap-around / partial-send scripts and cache conversations")
+    ran, bad = stop_during_apply(vlib.rng(55), 16 if chk.tier == "quick" else 300)
+    chk.cov["stop_during_apply_cases"] = ran
+    chk.cov["evaluations"] = chk.cov.get("evaluations", 0) + ran
+    for b in bad[:2]:
+        chk.violation({"kind": "rtr_stop in the middle of applying a response (impl vs C05/C07 closed form of a stop)",
+                       "detail": b, "script": b.get("script"),
+                       "replay_cmd": "build/bin/rtr_run_ubsan < (the lines of script)"}, key=b["key"])
     chk.cov["serial_values_exercised"] = "0, 1, 2^31-1, 2^31, 2^32-2, 2^32-1 and random; wrap 2^32-1 -> 0 in the plain and partial-send scripts"
     chk.assumptions += [
         "C05_after_success assumes duplicate-free tables (invariant proved in C03_tables_stay_sets)",
